@@ -4,7 +4,8 @@ re-register every buffer, return self; R3 constructors end with self.to(dtype, d
 R4 alias methods map to the right dtype; R5 derivatives alias their underlier; R6 constants follow the data's dtype.
 Added after the seeded-defect rounds: R7 concrete instruments do not replace the state operations nor keep tensor state outside _buffers; derived series (spot/volatility/variance) leave nothing on the instrument.
 Third round: R8 buffer-registry and re-configuration histories of every primary class.
-Rounds 4-5: R8x every sequence of at most 2 (thorough: 3, two classes 4) cast / simulate / register calls against a reference model; R6 also parsing helpers, ensemble_mean, the hedger's results and the criteria; cached_property is state on the instrument (R7)."""
+Rounds 4-5: R8x every sequence of at most 2 (thorough: 3, two classes 4) cast / simulate / register calls against a reference model; R6 also parsing helpers, ensemble_mean, the hedger's results and the criteria; cached_property is state on the instrument (R7).
+Round 7: R5 a derivative's to() judged by what it leaves behind (two underliers, three request forms); anchors resolved through the MRO."""
 import ast
 
 from .. import world as W
